@@ -146,6 +146,7 @@ type c07Mon struct {
 	putAt    map[int]map[uint64]time.Time // node -> round -> real time its Put returned
 	tr       uint64                      // transition round of the reshare being observed (0 = none yet)
 	leavers  map[int]bool
+	newGroup map[int]bool // members of the group after the reshare (set together with tr)
 	puts     int64
 }
 
@@ -234,6 +235,10 @@ func (m *c07Mon) onCall(from *c13Node, method, target string, req any, start tim
 	}
 	m.mu.Lock()
 	defer m.mu.Unlock()
+	if m.tr != 0 && m.newGroup[from.idx] && !m.leavers[from.idx] && pk.Round >= m.tr+2 {
+		m.memberPartial(from, target, pk, start, err)
+		return
+	}
 	if m.tr == 0 || !m.leavers[from.idx] || pk.Round < m.tr {
 		return
 	}
@@ -275,6 +280,45 @@ func (m *c07Mon) onCall(from *c13Node, method, target string, req any, start tim
 		"node %d (left the group) sent a partial for round %d >= transition round %d made with its old share; node %d, which had stored round %d %.1fs earlier and has not stored round %d, answered success",
 		from.idx, pk.Round, m.tr, recv.idx, m.tr-1, start.Sub(sw).Seconds(), pk.Round),
 		m.ci(map[string]any{"from": from.idx, "to": recv.idx, "round": pk.Round, "transition_round": m.tr}))
+}
+
+// memberPartial: a partial that a member of the NEW group made for a round well after the transition, sent to
+// another member of the new group that has itself stored the transition round (so it runs the new group). Such a
+// partial comes from a share that counts: being refused for who the sender is (unknown index, verification against
+// the wrong public share) contradicts the property. Refusals for the round number (clock skew) and transport
+// errors are not of that kind. Called with m.mu held.
+func (m *c07Mon) memberPartial(from *c13Node, target string, pk *drand.PartialBeaconPacket, start time.Time, err error) {
+	var recv *c13Node
+	m.nt.mu.Lock()
+	for _, n := range m.nt.nodes {
+		if n.addr == target {
+			recv = n
+		}
+	}
+	m.nt.mu.Unlock()
+	if recv == nil || !m.newGroup[recv.idx] || m.leavers[recv.idx] || recv.stopped.Load() {
+		return
+	}
+	if _, ok := m.putAt[recv.idx][m.tr]; !ok {
+		return
+	}
+	m.run.Count("new_group_partials_after_transition", 1)
+	if err == nil {
+		return
+	}
+	msg := err.Error()
+	for _, benign := range []string{"invalid round", "context deadline", "context canceled", "Unavailable", "connection", "transport"} {
+		if strings.Contains(msg, benign) {
+			return
+		}
+	}
+	if m.nt.starvedBetween(start, time.Now()) {
+		return
+	}
+	m.run.Count("new_group_partials_refused", 1)
+	m.run.Violation("C07/new-group-partial-refused/after-transition", fmt.Sprintf(
+		"node %d, a member of the new group, sent its partial for round %d (transition round %d) to node %d, also a member and past the transition; it was refused: %s",
+		from.idx, pk.Round, m.tr, recv.idx, c13Short(msg, 300)), m.ci(map[string]any{"from": from.idx, "to": recv.idx, "round": pk.Round, "transition_round": m.tr}))
 }
 
 type c07Identity struct {
@@ -412,7 +456,7 @@ func c07Main(t *testing.T, run *vfRun, p c07Params, dir string) {
 	nt := c13NewNet(t, lg, filepath.Join(dir, "nodes"), sch, time.Second, 0, chain.BoltDB)
 	defer nt.close()
 	m := &c07Mon{run: run, p: p, nt: nt, sch: sch, last: map[int]uint64{}, has: map[int]bool{}, sigs: map[uint64][]byte{},
-		firstPut: map[uint64]time.Time{}, putAt: map[int]map[uint64]time.Time{}, leavers: map[int]bool{}}
+		firstPut: map[uint64]time.Time{}, putAt: map[int]map[uint64]time.Time{}, leavers: map[int]bool{}, newGroup: map[int]bool{}}
 	fail := func(stage string, err error) {
 		run.Inconclusive(fmt.Sprintf("case %d (%s/%s): %s: %v", p.CaseIndex, p.Kind, p.Variant, stage, err))
 	}
@@ -637,6 +681,9 @@ func c07Main(t *testing.T, run *vfRun, p c07Params, dir string) {
 	m.tr = tr
 	if leaver != nil {
 		m.leavers[leaver.idx] = true
+	}
+	for _, n := range newMembers {
+		m.newGroup[n.idx] = true
 	}
 	m.mu.Unlock()
 	if nt.clockRound() >= tr {
